@@ -294,6 +294,48 @@ def runHelper (c : Cfg) : Nat → State → State
       | some s' => runHelper c n s'
       | none => s
 
+/-! ## The transaction watermark across `Close` (finding F38c)
+
+`oracle.readTs` returns `nextTxnTs − 1` after `txnMark.WaitForMark(readTs)`: immediately when
+`DoneUntil ≥ readTs`, otherwise it queues a waiter on `markCh` and blocks until the
+`WaterMark.process` goroutine releases it. `DB.close` ends with `orc.Stop()`, after which that
+goroutine is gone: marks sent later (the `Begin`/`Done` of a commit that obtains a timestamp
+and is then refused with `ErrBlockedWrites`, or of one that panicked — F38a — and never sent
+its `Done`) are never processed, `DoneUntil` stays behind `nextTxnTs − 1`, and every later
+`readTs` — `WriteBatch.commit` calls it right after its own refused commit, an `Update` that
+passed `IsClosed` before `Close` calls it — waits for ever. -/
+
+structure Orc where
+  processing : Bool := true     -- txnMark's process goroutine runs (until orc.Stop)
+  nextTxnTs : Nat := 1
+  doneUntil : Nat := 0
+  unprocessed : Nat := 0        -- marks sitting in markCh with nobody to take them
+  deriving DecidableEq, Repr
+
+inductive OrcOp where
+  /-- `newCommitTs` (Begin mark), `sendToWriteCh` refused, `doneCommit` (Done mark) -/
+  | commitRefused
+  /-- `orc.Stop()` at the end of `DB.close` -/
+  | stop
+  /-- `oracle.readTs()` of a new transaction -/
+  | readTs
+  deriving DecidableEq, Repr
+
+def Orc.step (o : Orc) : OrcOp → Orc × String
+  | .commitRefused =>
+    if o.processing ∧ o.doneUntil + 1 = o.nextTxnTs then
+      ({ o with nextTxnTs := o.nextTxnTs + 1, doneUntil := o.nextTxnTs }, "err-blocked")
+    else ({ o with nextTxnTs := o.nextTxnTs + 1, unprocessed := o.unprocessed + 2 }, "err-blocked")
+  | .stop => ({ o with processing := false }, "ok")
+  | .readTs =>
+    if o.nextTxnTs ≤ o.doneUntil + 1 then (o, "returns")
+    else if o.processing ∧ o.unprocessed = 0 then (o, "waits-for-running-commits")
+    else (o, "blocks-forever")
+
+def Orc.run (o : Orc) : List OrcOp → Orc × List String
+  | [] => (o, [])
+  | op :: ops => let (o', r) := o.step op; let (o'', rs) := o'.run ops; (o'', r :: rs)
+
 /-! ## The coarse state sampled by the harness -/
 
 /-- What the harness can observe through `db.Levels()` / the sampling hook. -/
